@@ -474,6 +474,84 @@ func testRegistry(rt *rapid.T, st *RunStats) {
 				cls["component-shared-by-256-or-more-archetypes"] = true
 			}
 		},
+		"wideEntity": func(t *rapid.T) {
+			// one entity with very many components (beyond 128 columns in the 256-bit build), relations among them
+			if len(m.order) < 20 {
+				t.Skip()
+			}
+			k := rapid.SampledFrom([]int{17, 33, 63, 64, 127, 128, 129, 130, 200, 255, 256}).Draw(t, "components")
+			if k > len(m.order) {
+				k = len(m.order)
+			}
+			first := rapid.IntRange(0, len(m.order)-k).Draw(t, "firstID")
+			var ids []ecs.ID
+			var rels []ecs.Relation
+			var relIDs []ecs.ID
+			tgt := w.NewEntity()
+			hugeSeen := false
+			for id := first; id < first+k; id++ {
+				ti := m.order[id]
+				if ti >= comps.N+firstHuge && ti < comps.N+len(specialTypes) {
+					if hugeSeen {
+						continue // one huge component per entity is enough
+					}
+					hugeSeen = true
+				}
+				x := mkID(uint8(id))
+				ids = append(ids, x)
+				if ti < comps.N && comps.All[ti].Relation || regType(ti) == reflect.TypeFor[relWithPayload]() {
+					rels = append(rels, ecs.RelID(x, tgt))
+					relIDs = append(relIDs, x)
+				}
+			}
+			var e ecs.Entity
+			if p := try(func() { e = u.NewEntityRel(ids, rels...) }); p != nil {
+				failf("registry|wide|create", "creating an entity with %d components (IDs %d..%d, %d relations) panicked: %v", len(ids), first, first+k-1, len(rels), p)
+			}
+			if p := try(func() {
+				for _, x := range ids {
+					if !u.Has(e, x) {
+						failf("registry|wide|has", "entity with %d components lacks ID %d", len(ids), x.Index())
+					}
+				}
+				for _, x := range relIDs {
+					if got := u.GetRelation(e, x); got != tgt {
+						failf("registry|wide|relation", "relation %d of the wide entity has target %v, want %v", x.Index(), got, tgt)
+					}
+				}
+				q := ecs.NewUnsafeFilter(w, ids...).Query(rels...)
+				n := 0
+				for q.Next() {
+					if q.Entity() == e {
+						n++
+					}
+				}
+				if n != 1 {
+					failf("registry|wide|query", "query for all %d components and %d relation targets finds the entity %d times", len(ids), len(rels), n)
+				}
+				if len(relIDs) > 0 {
+					other := w.NewEntity()
+					u.SetRelations(e, ecs.RelID(relIDs[len(relIDs)-1], other))
+					if got := u.GetRelation(e, relIDs[len(relIDs)-1]); got != other {
+						failf("registry|wide|set-relation", "SetRelations on the wide entity: target %v, want %v", got, other)
+					}
+					w.RemoveEntity(other)
+					if got := u.GetRelation(e, relIDs[len(relIDs)-1]); !got.IsZero() {
+						failf("registry|wide|detach", "target removed, relation still %v", got)
+					}
+				}
+				w.RemoveEntity(e)
+				w.RemoveEntity(tgt)
+			}); p != nil {
+				failf("registry|wide|panic", "valid operation on an entity with %d components panicked: %v", len(ids), p)
+			}
+			if len(ids) > 128 {
+				cls["entity-with-more-than-128-components"] = true
+			}
+			if len(ids) > 128 && len(relIDs) > 0 {
+				cls["wide-entity-with-relation"] = true
+			}
+		},
 		"relationTypesAcrossWorlds": func(t *rapid.T) {
 			// IDs belong to a world: two fresh worlds register two relation types in opposite order and are then given
 			// the same []Relation (built with Rel[T], shared by buildRels) through a typed mapper
@@ -722,6 +800,27 @@ func testRegistry(rt *rapid.T, st *RunStats) {
 				if cnt != 2 {
 					failf("registry|use|query-exclusive", "exclusive query for %v found %d of 2", idxs(ids), cnt)
 				}
+				// exclusive on all but the highest ID: the two entities have one component too many (the highest ID)
+				sub := ids[:len(ids)-1]
+				var es ecs.Entity
+				if p := try(func() { es = u.NewEntityRel(sub, relsFor2(sub, rels)...) }); p != nil {
+					failf("registry|use|create", "creating an entity with IDs %v panicked: %v", idxs(sub), p)
+				}
+				qs := ecs.NewUnsafeFilter(w, sub...).Exclusive().Query()
+				found := false
+				for qs.Next() {
+					if qs.Entity() == e || qs.Entity() == e2 {
+						qs.Close()
+						failf("registry|use|query-exclusive-extra", "exclusive query for %v yields an entity that also has component %d", idxs(sub), ids[len(ids)-1].Index())
+					}
+					if qs.Entity() == es {
+						found = true
+					}
+				}
+				if !found {
+					failf("registry|use|query-exclusive", "exclusive query for %v misses the entity with exactly these components", idxs(sub))
+				}
+				w.RemoveEntity(es)
 				if p := try(func() { u.Remove(e, ids[len(ids)-1]) }); p != nil {
 					failf("registry|use|remove", "removing component %d panicked: %v", ids[len(ids)-1].Index(), p)
 				}
@@ -855,6 +954,20 @@ func relsFor(ids []ecs.ID, rels []ecs.Relation, w *ecs.World) []ecs.Relation {
 		return []ecs.Relation{ecs.RelID(ids[0], ecs.Entity{})}
 	}
 	return nil
+}
+
+// relsFor2 returns those of rels whose component is in ids.
+func relsFor2(ids []ecs.ID, rels []ecs.Relation) []ecs.Relation {
+	var out []ecs.Relation
+	for _, r := range rels {
+		// (rels were built with RelID in the order of ids; a relation belongs to ids if its ID is among them)
+		for _, id := range ids {
+			if r == ecs.RelID(id, ecs.Entity{}) {
+				out = append(out, r)
+			}
+		}
+	}
+	return out
 }
 
 func idxs(ids []ecs.ID) []uint8 {
